@@ -157,3 +157,12 @@ add('C05', 'break', 'brax/positional/pipeline.py', 'xdd_i = Motion.create(vel=sy
 add('C05', 'break', G + 'dynamics.py', 'cdd_parent = Motion.create(vel=-jp.tile(sys.gravity, (num_roots, 1)))', 'cdd_parent = Motion.create(vel=-jp.tile(sys.gravity * jp.array([0.0, 0.0, 1.0]), (num_roots, 1)))', 'gravity assumed along z (generalized)')
 add('C05', 'benign', G + 'dynamics.py', 'root = jp.array([root_fn(i) for i in range(sys.num_links())])', 'root = jp.array([0 for i in range(sys.num_links())])', 'one global reference point instead of per-root CoM (physics unchanged)')
 add('C05', 'benign', G + 'dynamics.py', 'mass_xi = jax.vmap(jp.multiply)(sys.link.inertia.mass, x_i.pos)', 'mass_xi = jax.vmap(lambda m, p: p * m)(sys.link.inertia.mass, x_i.pos)', 'commuted')
+
+# ---- C12: first-order consistency of the generalized integrator (dual-number dt)
+add('C12', 'break', G + 'dynamics.py', 'return cinr.mul(cdd) + cd.cross(cinr.mul(cd))', 'return cinr.mul(cdd)', 'velocity-product (gyroscopic) term dropped from Newton-Euler')
+add('C12', 'break', G + 'dynamics.py', 'cdd_parent = Motion.create(vel=-jp.tile(sys.gravity, (num_roots, 1)))', 'cdd_parent = Motion.create(vel=-0.5 * jp.tile(sys.gravity, (num_roots, 1)))', 'half gravity in the bias force')
+add('C12', 'break', G + 'dynamics.py', 'cdof = cdof.replace(ang=ang, vel=vel)', 'cdof = cdof.replace(ang=ang)', 'prismatic dof axes left in the link frame')
+add('C12', 'break', G + 'integrator.py', '  qd = state.qd + qdd * sys.opt.timestep', '  qd = state.qd + qdd * sys.opt.timestep * 0.5', 'velocity advanced by half a step')
+add('C12', 'break', G + 'dynamics.py', 'qfrc = qfrc_passive - qfrc_bias + tau', 'qfrc = qfrc_passive + qfrc_bias + tau', 'bias force with the wrong sign')
+add('C12', 'benign', G + 'integrator.py', "  q = scan.link_types(sys, q_fn, 'lqd', 'q', sys.link, state.q, qd)", "  q = scan.link_types(sys, q_fn, 'lqd', 'q', sys.link, state.q, state.qd)", 'explicit Euler: still first-order consistent (drift O(dt)); the ordering is C02 R2.4, not C12')
+add('C12', 'benign', G + 'integrator.py', '  qd = state.qd + qdd * sys.opt.timestep', '  qd = sys.opt.timestep * qdd + state.qd', 'commuted')
